@@ -5,6 +5,7 @@ Require Import Selen.Model.Prelude Selen.Model.Dom Selen.Model.Views Selen.Model
 Require Import Selen.Model.Props.Basic Selen.Model.Props.LinInt Selen.Model.Propagate Selen.Model.Search Selen.Model.EngineSpec.
 Require Import Selen.Model.Api Selen.Model.Lower.
 Require Import Selen.Proofs.DomProofs Selen.Proofs.Props.BasicProofs Selen.Proofs.EngineProofs Selen.Proofs.LowerProofs.
+Require Selen.Proofs.Props.NeqProofs.
 
 Lemma fixed_asg : forall (t : store) a v, all_fixed t = true -> inst a t -> (v < length t)%nat -> asg_of t v = a v.
 Proof.
@@ -67,15 +68,33 @@ Definition den_basic (p : pdesc) : prop :=
 Lemma den_basic_sat : forall p a, sat (den_basic p) a = psat p a.
 Proof. intros p a; destruct p; reflexivity. Qed.
 
-(* D3, end to end: x, y in 0..1, (x != y) /\ (x <= 1): the nested != becomes the no-op NotEquals
-   propagator and the engine yields x = y = 0 *)
-Lemma nested_ne_refuted : exists decls c s ps sols best t,
-  kf_or_not (fold_cons c) = false /\ kf_nested_ne c = true /\
-  lower (build (decls ++ [SNew c])) = LOk s ps /\
-  enumerate fifo (map den_basic ps) s = SOk sols best /\ In t sols /\ eval_cons c (asg_of t) = Some false.
+(* the lowered `!=` (Propagators::not_equals, Props/Neq.v after the repair 106df3d) meets the local
+   contracts, so the premise `Forall good` of fluent_model_solutions can be discharged for it *)
+Lemma pneq_good : forall x y, view_ok x -> view_ok y -> good (den_basic (PNeq x y)).
+Proof. intros x y Hx Hy. exact (NeqProofs.mk_neq_good x y Hx Hy). Qed.
+
+(* D3 repaired, end to end: x, y in 0..1, (x != y) /\ (x <= 1): the nested != is lowered to the
+   NotEquals propagator, which now prunes: the engine yields exactly (0,1) and (1,0) *)
+Lemma nested_ne_repaired : exists s ps sols best,
+  let c := CAnd (CBin x0 ONe x1) (CBin x0 OLe (EVal 1)) in
+  lower (build ([SInt 0 1; SInt 0 1] ++ [SNew c])) = LOk s ps /\
+  enumerate fifo (map den_basic ps) s = SOk sols best /\ length sols = 2%nat /\
+  forall t, In t sols -> eval_cons c (asg_of t) = Some true.
 Proof.
-  exists [SInt 0 1; SInt 0 1], (CAnd (CBin x0 ONe x1) (CBin x0 OLe (EVal 1))).
-  do 4 eexists. exists [[0]; [0]; [1]].
-  split; [reflexivity|]. split; [reflexivity|]. split; [vm_compute; reflexivity|].
-  split; [vm_compute; reflexivity|]. split; [simpl; auto|reflexivity].
+  do 4 eexists. cbv zeta.
+  split; [vm_compute; reflexivity|]. split; [vm_compute; reflexivity|]. split; [reflexivity|].
+  intros t [<-|[<-|[]]]; reflexivity.
+Qed.
+
+(* the pre-repair behaviour, for the record: with the former no-op record (Props/Basic.v
+   mk_neq_noop, neq.rs before 106df3d) in place of mk_neq the same lowered model yields x = y = 0 *)
+Definition den_basic_prefix (p : pdesc) : prop :=
+  match p with PNeq x y => mk_neq_noop x y | _ => den_basic p end.
+Lemma nested_ne_prefix_refuted : exists s ps sols best t,
+  let c := CAnd (CBin x0 ONe x1) (CBin x0 OLe (EVal 1)) in
+  lower (build ([SInt 0 1; SInt 0 1] ++ [SNew c])) = LOk s ps /\
+  enumerate fifo (map den_basic_prefix ps) s = SOk sols best /\ In t sols /\ eval_cons c (asg_of t) = Some false.
+Proof.
+  do 4 eexists. exists [[0]; [0]; [1]]. cbv zeta.
+  split; [vm_compute; reflexivity|]. split; [vm_compute; reflexivity|]. split; [simpl; auto|reflexivity].
 Qed.
